@@ -103,20 +103,27 @@ Proof. intro H. unfold strip_bang, replace_all. apply replace_nobang; auto. Qed.
 
 Definition no_bang (c : string) : Prop := has_bang c = false.
 
+Lemma strip_map cs : Forall no_bang cs -> map strip_bang (map (append "!") cs) = cs.
+Proof.
+  induction 1 as [|x l Hx Hl IH]; [reflexivity|]. cbn [map].
+  rewrite strip_bang_prefixed by exact Hx. rewrite IH. reflexivity.
+Qed.
+
+Lemma all_banged cs : forallb has_bang (map (append "!") cs) = true.
+Proof.
+  induction cs as [|x l IH]; [reflexivity|]. cbn [map forallb].
+  rewrite has_bang_prefixed, IH. reflexivity.
+Qed.
+
 (* the documented syntax: every entry "!"-prefixed -> everything except the named codes *)
 Lemma selected_exclusion_syntax cs c :
   cs <> [] -> Forall no_bang cs ->
   selected (map (append "!") cs) c = negb (str_mem c cs).
 Proof.
   intros Hne Hnb. rewrite selected_exclusion.
-  - f_equal. f_equal. rewrite map_map. induction Hnb as [|x l Hx Hl IH]; simpl; auto.
-    rewrite strip_bang_prefixed by exact Hx. f_equal.
-    destruct l; [reflexivity|]. apply IH. discriminate.
+  - rewrite strip_map by exact Hnb. reflexivity.
   - destruct cs; [congruence|discriminate].
-  - clear. induction cs as [|x l IH]; [reflexivity|].
-    change (forallb has_bang (map (append "!") (x :: l))) with
-        (has_bang ("!" ++ x) && forallb has_bang (map (append "!") l)).
-    rewrite has_bang_prefixed, IH. reflexivity.
+  - apply all_banged.
 Qed.
 
 (* no entry carries a "!" -> exactly the named codes *)
@@ -152,7 +159,9 @@ Qed.
 Lemma agg_step_custom rs opts frac ret a r :
   agg_step rs opts frac ret a r = agg_step rs [] frac ret a (apply_custom opts r).
 Proof.
-  unfold agg_step. rewrite iso3_apply_custom. reflexivity.
+  unfold agg_step.
+  change (apply_custom [] (apply_custom opts r)) with (apply_custom opts r).
+  rewrite !iso3_apply_custom. reflexivity.
 Qed.
 
 Lemma agg_loop_custom rs opts frac ret rows : forall a,
@@ -178,29 +187,35 @@ Definition counted (rs : list string * list string) (frac : string -> option Q) 
   && (match getq r "population" with Some _ => true | None => false end)
   && (match frac (iso3 r) with Some _ => true | None => false end).
 
+Lemma sum_pop_cons r rows : sum_pop (r :: rows) = pop_of r + sum_pop rows.
+Proof. reflexivity. Qed.
+Lemma sum_fed_cons frac r rows :
+  sum_fed frac (r :: rows) = pop_of r * Qmin 1 (opt0 (frac (iso3 r))) + sum_fed frac rows.
+Proof. reflexivity. Qed.
+
 Lemma agg_loop_ok rs frac ret rows : forall a0,
   (forall r, In r rows -> selected_rs rs (iso3 r) = true -> verify_ok r = true) ->
   exists a, agg_loop rs [] frac ret rows a0 = AggOk a /\
     net_pop a == net_pop a0 + sum_pop (filter (counted rs frac) rows) /\
     net_fed a == net_fed a0 + sum_fed frac (filter (counted rs frac) rows) /\
-    (ret = true -> NoDup (keys a0 ++ map cname (filter (counted rs frac) rows)) ->
-     keys a = keys a0 ++ map cname (filter (counted rs frac) rows)) /\
+    (ret = true -> NoDup (keys a0 ++ map cname (filter (counted rs frac) rows))%list ->
+     keys a = (keys a0 ++ map cname (filter (counted rs frac) rows))%list) /\
     (ret = false -> keys a = keys a0).
 Proof.
   induction rows as [|r rows IH]; intros a0 Hv.
   - exists a0. simpl. repeat split; try lra; intros; now rewrite ?app_nil_r.
   - assert (Hv' : forall r0, In r0 rows -> selected_rs rs (iso3 r0) = true -> verify_ok r0 = true)
       by (intros; apply Hv; simpl; auto).
-    cbn [agg_loop]. unfold agg_step. cbn [apply_custom fold_left]. unfold counted at 1 2 3 4. cbn [filter].
-    destruct (selected_rs rs (iso3 r)) eqn:Es; cbn [negb andb].
+    cbn [agg_loop filter]. unfold agg_step. cbn [apply_custom fold_left].
+    destruct (selected_rs rs (iso3 r)) eqn:Es; cbn [negb].
     + rewrite (Hv r (or_introl eq_refl) Es). cbn [negb].
-      destruct (getq r "population") as [pop|] eqn:Ep; cbn [andb].
+      destruct (getq r "population") as [pop|] eqn:Ep.
       * destruct (frac (iso3 r)) as [f|] eqn:Ef.
-        -- match goal with |- context [agg_loop _ _ _ _ rows ?A] => destruct (IH A Hv') as [a [H1 [H2 [H3 [H4 H5]]]]] end.
+        -- assert (Ec : counted rs frac r = true) by (unfold counted; rewrite Es, Ep, Ef; reflexivity).
+           rewrite Ec.
+           match goal with |- context [agg_loop _ _ _ _ rows ?A] => destruct (IH A Hv') as [a [H1 [H2 [H3 [H4 H5]]]]] end.
            exists a. cbn [net_pop net_fed keys] in *. split; [exact H1|].
-           cbn [sum_pop sum_fed fold_right map]. fold (sum_pop (filter (counted rs frac) rows)).
-           fold (sum_fed frac (filter (counted rs frac) rows)).
-           unfold pop_of at 1 2. rewrite Ep, Ef. cbn [opt0].
+           rewrite sum_pop_cons, sum_fed_cons. cbn [map]. unfold pop_of at 1 2. rewrite Ep, Ef. cbn [opt0].
            split; [rewrite H2; ring|]. split; [rewrite H3, cap_min; ring|]. split.
            ++ intros Hr Hnd. subst ret. unfold dict_add in H4.
               assert (Hni : str_mem (cname r) (keys a0) = false).
@@ -210,10 +225,14 @@ Proof.
               ** rewrite <- app_assoc. reflexivity.
               ** rewrite <- app_assoc. exact Hnd.
            ++ intros Hr. subst ret. apply H5; reflexivity.
-        -- match goal with |- context [agg_loop _ _ _ _ rows ?A] => destruct (IH A Hv') as [a [H1 [H2 [H3 [H4 H5]]]]] end.
+        -- assert (Ec : counted rs frac r = false) by (unfold counted; rewrite Es, Ep, Ef; reflexivity).
+           rewrite Ec.
+           match goal with |- context [agg_loop _ _ _ _ rows ?A] => destruct (IH A Hv') as [a [H1 [H2 [H3 [H4 H5]]]]] end.
            exists a. cbn [net_pop net_fed keys] in *. auto.
-      * destruct (IH a0 Hv') as [a [H1 [H2 [H3 [H4 H5]]]]]. exists a. auto.
-    + destruct (IH a0 Hv') as [a [H1 [H2 [H3 [H4 H5]]]]]. exists a. auto.
+      * assert (Ec : counted rs frac r = false) by (unfold counted; rewrite Es, Ep; reflexivity).
+        rewrite Ec. destruct (IH a0 Hv') as [a [H1 [H2 [H3 [H4 H5]]]]]. exists a. auto.
+    + assert (Ec : counted rs frac r = false) by (unfold counted; rewrite Es; reflexivity).
+      rewrite Ec. destruct (IH a0 Hv') as [a [H1 [H2 [H3 [H4 H5]]]]]. exists a. auto.
 Qed.
 
 (* rejection: a selected row that fails verify_country_data aborts the run *)
@@ -274,3 +293,116 @@ Qed.
 
 Lemma count_once (codes : list string) c : NoDup codes -> In c codes -> count_occ string_dec codes c = 1%nat.
 Proof. intros Hn Hi. apply NoDup_count_occ'; auto. Qed.
+
+(* ------------------------------------------------------------------ whole run *)
+
+Lemma run_rejects_no_scenario opts l frac ret rows : run_no_trade 0 opts l frac ret rows = AggRejected.
+Proof. reflexivity. Qed.
+
+Lemma run_no_trade_value n opts l frac ret rows :
+  n <> 0%nat ->
+  (forall r, In r rows -> selected l (iso3 r) = true -> verify_ok (apply_custom opts r) = true) ->
+  let cnt := filter (counted (get_run_skip l) frac) (map (apply_custom opts) rows) in
+  exists a, run_no_trade n opts l frac ret rows = AggOk a /\
+    net_pop a == sum_pop cnt /\ net_fed a == sum_fed frac cnt /\
+    (ret = true -> NoDup (map cname cnt) -> keys a = map cname cnt) /\
+    (ret = false -> keys a = []).
+Proof.
+  intros Hn Hv cnt. unfold run_no_trade.
+  destruct (Nat.eqb_spec n 0) as [->|_]; [congruence|].
+  rewrite agg_loop_custom.
+  destruct (agg_loop_ok (get_run_skip l) frac ret (map (apply_custom opts) rows) acc0) as [a [H1 [H2 [H3 [H4 H5]]]]].
+  - intros r' Hin Hs. apply in_map_iff in Hin as [r [<- Hin]].
+    rewrite iso3_apply_custom in Hs. apply Hv; auto.
+  - exists a. cbn [acc0 net_pop net_fed keys] in *. fold cnt in H2, H3, H4.
+    split; [exact H1|]. split; [rewrite H2; ring|]. split; [rewrite H3; ring|]. split; auto.
+Qed.
+
+(* a selected row rejected by verify_country_data aborts the whole run; in particular a NaN population is
+   rejected there, BEFORE the code's own `if np.isnan(population): continue` is reached *)
+Lemma run_rejects n l frac ret rows :
+  existsb (fun r => selected l (iso3 r) && negb (verify_ok r)) rows = true ->
+  run_no_trade n [] l frac ret rows = AggRejected.
+Proof.
+  intro H. unfold run_no_trade. destruct (Nat.eqb n 0); [reflexivity|].
+  apply agg_loop_rejects. exact H.
+Qed.
+
+Lemma verify_ok_nan_population r : getq r "population" = None -> verify_ok r = false.
+Proof.
+  intro H. unfold verify_ok. unfold verify_bounds. cbn [forallb]. unfold bound_ok at 1. rewrite H. reflexivity.
+Qed.
+
+Lemma aggregate_range frac a cnt :
+  net_pop a == sum_pop cnt -> net_fed a == sum_fed frac cnt ->
+  (forall r, In r cnt -> 0 <= pop_of r) -> (forall r, In r cnt -> 0 <= opt0 (frac (iso3 r))) ->
+  0 < sum_pop cnt -> 0 <= aggregate a /\ aggregate a <= 1.
+Proof.
+  intros H1 H2 Hp Hf Hpos. unfold aggregate. rewrite H1, H2.
+  destruct (sums_range frac cnt Hp Hf). apply ratio_range; auto.
+Qed.
+
+(* a table all of whose rows pass verify_country_data and have a positive population *)
+Definition pos_pop (r : row) : bool :=
+  match getq r "population" with Some p => Qlt_b 0 p | None => false end.
+Definition rows_fine (rows : list row) : bool := forallb (fun r => verify_ok r && pos_pop r) rows.
+
+Lemma pos_pop_spec r : pos_pop r = true -> exists p, getq r "population" = Some p /\ 0 < p.
+Proof.
+  unfold pos_pop. destruct (getq r "population") as [p|]; [|discriminate]. intro H. exists p; split; auto.
+  unfold Qlt_b in H. apply negb_true_iff in H. destruct (Qlt_le_dec 0 p) as [L|L]; auto.
+  apply Qle_bool_iff in L. congruence.
+Qed.
+
+Lemma map_apply_custom_nil rows : map (apply_custom []) rows = rows.
+Proof. induction rows as [|r rows IH]; simpl; [|rewrite IH]; reflexivity. Qed.
+
+Theorem run_fine_table n l frac rows :
+  n <> 0%nat -> rows_fine rows = true -> NoDup (map cname rows) ->
+  (forall c, exists f, frac c = Some f /\ 0 <= f) ->
+  exists a, run_no_trade n [] l frac true rows = AggOk a /\
+    net_pop a == sum_pop (sel_rows l rows) /\
+    net_fed a == sum_fed frac (sel_rows l rows) /\
+    keys a = map cname (sel_rows l rows) /\ NoDup (keys a) /\
+    (sel_rows l rows <> [] -> 0 < net_pop a /\ 0 <= aggregate a /\ aggregate a <= 1).
+Proof.
+  intros Hn Hfine Hnd Hfr. unfold rows_fine in Hfine. rewrite forallb_forall in Hfine.
+  destruct (run_no_trade_value n [] l frac true rows Hn) as [a [H1 [H2 [H3 [H4 _]]]]].
+  - intros r Hin _. specialize (Hfine r Hin). apply andb_true_iff in Hfine as [Hv _]. exact Hv.
+  - rewrite map_apply_custom_nil in *.
+    assert (Heq : filter (counted (get_run_skip l) frac) rows = sel_rows l rows).
+    { unfold sel_rows. apply filter_ext_in. intros r Hin. specialize (Hfine r Hin).
+      apply andb_true_iff in Hfine as [_ Hp]. apply pos_pop_spec in Hp as [p [Hp _]].
+      destruct (Hfr (iso3 r)) as [f [Hf _]]. unfold counted, selected. rewrite Hp, Hf.
+      rewrite !andb_true_r. reflexivity. }
+    rewrite Heq in *. clear Heq.
+    assert (Hnd' : NoDup (map cname (sel_rows l rows))) by (apply NoDup_map_filter; exact Hnd).
+    exists a. split; [exact H1|]. split; [exact H2|]. split; [exact H3|].
+    specialize (H4 eq_refl Hnd'). split; [exact H4|]. split; [rewrite H4; exact Hnd'|].
+    intro Hne.
+    assert (Hpp : forall r, In r (sel_rows l rows) -> 0 < pop_of r).
+    { intros r Hin. apply filter_In in Hin as [Hin _]. specialize (Hfine r Hin).
+      apply andb_true_iff in Hfine as [_ Hp]. apply pos_pop_spec in Hp as [p [Hp Hpos]].
+      unfold pop_of. rewrite Hp. exact Hpos. }
+    assert (Hpos : 0 < sum_pop (sel_rows l rows)) by (apply sum_pop_pos; auto).
+    split; [rewrite H2; exact Hpos|].
+    apply (aggregate_range frac a (sel_rows l rows)); auto.
+    + intros r Hin. apply Qlt_le_weak. apply Hpp; auto.
+    + intros r _. destruct (Hfr (iso3 r)) as [f [Hf Hf0]]. rewrite Hf. exact Hf0.
+Qed.
+
+(* each selected code of a duplicate-free table is one row of the selection *)
+Lemma sel_rows_once l rows c :
+  NoDup (map iso3 rows) -> In c (map iso3 rows) -> selected l c = true ->
+  exists r, In r (sel_rows l rows) /\ iso3 r = c /\
+            forall r', In r' (sel_rows l rows) -> iso3 r' = c -> r' = r.
+Proof.
+  intros Hnd Hin Hs. apply in_map_iff in Hin as [r [Hc Hin]]. exists r. split.
+  - unfold sel_rows. apply filter_In. rewrite Hc. auto.
+  - split; auto. intros r' Hin' Hc'. apply filter_In in Hin' as [Hin' _].
+    clear Hs. induction rows as [|x rows IH]; [contradiction|].
+    simpl in Hnd. inversion Hnd as [|? ? Hni Hnd']; subst.
+    destruct Hin as [->|Hin], Hin' as [->|Hin']; auto.
+    + exfalso. apply Hni. apply in_map_iff. exists r'; auto.
+    + exfalso. apply Hni. apply in_map_iff. exists r; split; auto.
+Qed.
